@@ -132,6 +132,13 @@ func (d *decoder) varint() uint64 {
 		return 0
 	}
 	v, n := binary.Uvarint(d.buf)
+	if n <= 0 {
+		// n == 0 means the buffer is too short, n < 0 means the value overflows 64
+		// bits. Either way the input is damaged and slicing with n would panic or
+		// silently decode a zero.
+		d.err = io.ErrUnexpectedEOF
+		return 0
+	}
 	d.buf = d.buf[n:]
 	return v
 }
